@@ -34,6 +34,8 @@ def build_conn(b, seed, params=None):
     p.setdefault("offered", offered(b["first"], suite, rng))
     p["zero_rtt"] = b["zrtt"]
     c = QuicConn(suite, seed=seed, **p)
+    if p.get("init_token"):                 # a token from an earlier connection's NEW_TOKEN frame in the very first Initial
+        c.token = c.g(p["init_token"])
     ch = c.client_hello()
     n = len(b["split"])
     cuts = [len(ch) * i // n for i in range(n + 1)]
@@ -118,6 +120,8 @@ def build_conn(b, seed, params=None):
             kw = {}
             if pk["t"] == "I" and d == "c" and any(f["ft"] == "crypto" for f in pk["frames"]):
                 kw["pad_to"] = 1000 if b["zrtt"] else 1150
+            if pk["t"] in ("I", "H", "Z") and p.get("len_width"):
+                kw["len_width"] = p["len_width"]
             if pk["t"] == "A":
                 kw["gen"] = pk["gen"]
                 if p.get("pn_gaps") and rng.random() < 0.4:
@@ -146,7 +150,13 @@ def run_quic(b, seed, params=None, opts=(), flow=None, trace=False, extra_dgrams
             if g.stream and rng.random() < 0.5:
                 out.append(g)
         c.dgrams = out
-    cap = udp_capture([(fl, g.d, g.payload, g) for g in c.dgrams], cap=Capture(ts0=1_700_000_000_000_000 + seed % 999_983, step=1009))
+    from wire import l2l4 as _l
+    _l.VARIATION.clear()
+    _l.VARIATION.update((params or {}).get("l2") or {})
+    try:
+        cap = udp_capture([(fl, g.d, g.payload, g) for g in c.dgrams], cap=Capture(ts0=1_700_000_000_000_000 + seed % 999_983, step=1009))
+    finally:
+        _l.VARIATION.clear()
     res = runner.run_inproc(pcapng_bytes(cap.pkts), "\n".join(c.keylog) + "\n", opts=list(opts), trace=trace)
     return c, payload, fl, cap, res
 
